@@ -1,6 +1,7 @@
 import Tickit.Proof.WinFocus
 import Tickit.Proof.WinFocusReq
 import Tickit.Proof.WinFocusHist
+import Tickit.Proof.WinFocusRestack
 import Tickit.Gen.WinFocusSrc
 /-
   C15 — After a flush the terminal cursor reflects the focused window, or is hidden.
@@ -406,36 +407,38 @@ theorem hide_requests_counterexample : ¬ hide_requests_full Fixes.none := by
 
 /-! ### the property over histories
 
-    `Op`, `HSt`, `stepOp`, `runOps` (Proof/WinFocusHist.lean): the operations the property quantifies over — window
+    `Op`, `HSt`, `stepOp`, `runOps` (Proof/WinFocusRestack.lean): the operations the property quantifies over — window
     creation, take-focus, the cursor setters, the notification switch, show, hide, close, restacking requests, a geometry
     change with the exposes of the old and the new area (C01's proviso), expose, flush — run on a tree and a terminal
     cursor. -/
 
 /-- C15 over histories: from a fresh root window on an `l × c` terminal, after any history that ends in a flush and
     that the library survives, the terminal cursor is what `cursorSpec` says of the tree.
-    False of `Fixes.none` (the four counterexamples above are such histories).  For the repaired source it is PROVED for
-    plain histories (`history_cursor` below); what is still open are histories with restacking requests (the effect of
-    `_do_hierarchy_change` RAISE/LOWER inside the flush on the composition has no step lemma yet) and moves of the root
-    window (outside C01's proviso: its geometry follows the terminal). -/
+    False of `Fixes.none` (the four counterexamples above are such histories).  For the repaired source it is PROVED
+    (`history_cursor` below) for every history of the library's operations that does not move the root window; such a
+    move is outside C01's proviso (the root's geometry follows the terminal), and that is all that keeps this a `def`. -/
 def history_full (fx : Fixes) : Prop :=
   ∀ (l c : Int) (ops : List Op) (s : HSt), 0 < l → 0 < c →
     runOps fx { tree := newRoot l c } (ops ++ [.flush]) = .ok s → s.term.matches (cursorSpec s.tree) = true
 
 /-- **After every flush the cursor equals `cursorSpec`**, over whole histories, for the source as repaired in /repo:
     every history of window creation, take-focus, cursor position / visibility / shape / blink changes, notification
-    switches, show, hide, close, geometry changes of any window but the root (with the proviso's exposes), expose and
+    switches, show, hide, close, raise, raise-to-front, lower, lower-to-back (queued, and applied by the next flush
+    together with their exposes), geometry changes of any window but the root (with the proviso's exposes), expose and
     flush, in any order and of any length, from a fresh root window on any terminal, that ends in a flush.
-    (`Op.plain`: no restacking request, the root window is not moved.)  The composition of `restore_spec`,
-    `flush_cursor`, `restore_requested` for every operation (C01's damage specification underneath), the flag discipline,
-    and the preservation of `Good15`. -/
+    (`Op.plain`: a restacking request is one of the four kinds the API offers; the root window is not moved.)  The
+    composition of `restore_spec`, `flush_cursor`, `restore_requested` for every operation (C01's damage specification
+    underneath), the step lemma for `_do_hierarchy_change` inside the flush (`restack_apply`: a reordered child list
+    changes ownership only inside the exposed rectangle), the flag discipline, and the preservation of `Good15`. -/
 theorem history_cursor (fx : Fixes) (hfx1 : fx.hiddenRoot = true) (hfx2 : fx.chainRestore = true)
     (l c : Int) (hl : 0 < l) (hc : 0 < c) (ops : List Op) (hplain : ∀ op ∈ ops, op.plain) (s : HSt)
     (h : runOps fx { tree := newRoot l c } (ops ++ [.flush]) = .ok s) :
     s.term.matches (cursorSpec s.tree) = true :=
   WinFocus.history_cursor hfx1 hfx2 l c hl hc ops hplain s h
 
-/-- … and at every flush in the middle of such a history too: the invariant `HInv` (store and flags in order, nothing
-    queued, cursor right or a restore pending) holds after every operation, and after a flush the cursor is right. -/
+/-- … and at every flush in the middle of such a history too: the invariant `HInv` (store and flags in order, only
+    restacking requests queued, cursor right or a restore pending) holds after every operation, and after a flush the
+    cursor is right. -/
 theorem history_every_flush (fx : Fixes) (hfx1 : fx.hiddenRoot = true) (hfx2 : fx.chainRestore = true)
     (l c : Int) (hl : 0 < l) (hc : 0 < c) (ops : List Op) (hplain : ∀ op ∈ ops, op.plain) (s s' : HSt)
     (h : runOps fx { tree := newRoot l c } ops = .ok s) (hf : stepOp fx s .flush = .ok s') :
@@ -449,8 +452,7 @@ def wf_preserved_full (fx : Fixes) : Prop :=
 /-- `Good15` — `wfB` with `chain_visible`, the window engine's structural invariants, the flag discipline — survives
     window creation, take-focus, the cursor setters, the notification switch, show, hide, close, restacking requests,
     geometry changes of any window but the root with their exposes, and expose, for every tree and every state of
-    the source.  (The flush: `flush_preserves_wf` for `wfB` with any queue of restacking requests; `HInv` in
-    `history_every_flush` for `Good15` with an empty queue.) -/
+    the source.  (The flush: `flush_preserves_good` below.) -/
 theorem wf_preserved (fx : Fixes) (s s' : HSt) (op : Op) (hop : op ≠ .flush) (hmv : ∀ w r, op = .move w r → w ≠ 0)
     (hg : Good15 s.tree) (hs : stepOp fx s op = .ok s') : Good15 s'.tree := by
   cases op with
@@ -505,6 +507,19 @@ theorem wf_preserved (fx : Fixes) (s s' : HSt) (op : Op) (hop : op ≠ .flush) (
 theorem flush_preserves_wf (fx : Fixes) (t : Tree) (out : FlushOut) (hwf : wfB t = true)
     (hq : ∀ r ∈ t.root.changes, r.change.isRestack = true) (hf : flush fx t = .ok out) : wfB out.tree = true :=
   flush_wf hwf hq hf
+
+/-- … and all of `Good15`: the queued restacking is applied (child lists reordered, the windows' areas exposed), the
+    damage handed out, the flags cleared. -/
+theorem flush_preserves_good (fx : Fixes) (t : Tree) (out : FlushOut) (hg : Good15 t)
+    (hq : ∀ r ∈ t.root.changes, r.change.isRestack = true) (hf : flush fx t = .ok out) : Good15 out.tree :=
+  flush_good hg hq hf
+
+/-- `restore_requested` for the *application* of a queued restacking request inside the flush: afterwards an expose is
+    pending (which makes this very flush restore the cursor) or `cursorSpec` is what it was. -/
+theorem restore_requested_restack_applied (t t' : Tree) (ch : Change) (p c : Nat) (hg : Good15 t)
+    (hch : ch.isRestack = true) (hd : doHierarchyChange t (treeFuel t) ch p c = .ok t') :
+    t'.root.needsExpose = true ∨ cursorSpec t' = cursorSpec t :=
+  (restack_apply (goodF_of_good hg) hch hd).2.2
 
 /-- `flush_cursor` for the repaired `_do_restore`, with every hypothesis on the state *before* the flush. -/
 theorem flush_cursor_repaired (fx : Fixes) (hfx : fx.hiddenRoot = true) (t : Tree) (out : FlushOut)
@@ -600,6 +615,23 @@ example : VisPath demoTree 3 :=
 example : ∃ s, runOps Fixes.none { tree := newRoot 6 10 }
     [.newWin 0 ⟨1, 1, 3, 3⟩ false false false false, .curpos 1 1 2, .focus 1, .flush] = .ok s ∧
     s.term.matches (cursorSpec s.tree) = true ∧ cursorSpec s.tree = some (2, 3, 1) := by
+  refine ⟨_, rfl, by decide, by decide⟩
+/-- a history with restacking: two overlapping siblings, the focused one's cursor cell lies in the overlap; behind its
+    sibling the cursor is hidden, raised to the front it shows, lowered again it is hidden (repaired source) -/
+def restackOps1 : List Op :=
+  [.newWin 0 ⟨1, 1, 3, 3⟩ false false false false, .newWin 0 ⟨2, 2, 3, 3⟩ false false false false,
+   .curpos 1 1 1, .focus 1, .flush]
+example : (∀ op ∈ restackOps1 ++ [.restack .raiseFront 1], op.plain) := by
+  intro op h; simp [restackOps1] at h; rcases h with h | h | h | h | h | h <;> subst h <;> simp [Op.plain, Change.isRestack]
+example : ∃ s, runOps Fixes.all { tree := newRoot 6 10 } restackOps1 = .ok s ∧ cursorSpec s.tree = none ∧
+    s.term.matches none = true := by
+  refine ⟨_, rfl, by decide, by decide⟩
+example : ∃ s, runOps Fixes.all { tree := newRoot 6 10 } (restackOps1 ++ [.restack .raiseFront 1, .flush]) = .ok s ∧
+    cursorSpec s.tree = some (2, 2, 1) ∧ s.term.matches (some (2, 2, 1)) = true := by
+  refine ⟨_, rfl, by decide, by decide⟩
+example : ∃ s, runOps Fixes.all { tree := newRoot 6 10 }
+      (restackOps1 ++ [.restack .raiseFront 1, .flush, .restack .lower 1, .flush]) = .ok s ∧
+    cursorSpec s.tree = none ∧ s.term.matches none = true := by
   refine ⟨_, rfl, by decide, by decide⟩
 
 end Tickit.Props.C15
